@@ -137,9 +137,31 @@ def make_body_read(tag, vary):
             # the server's read() returns fewer bytes than asked for, once, after v bytes (every v); afterwards full reads
             assume(0 <= v < n)
             b, cl, frags = (n + 1 if vary == "short" else 7), n, [lens[v]]
+        elif vary.startswith("eof"):
+            # the connection ends after v bytes although Content-Length announces the whole body (since seed C06-k): the
+            # result is the one of the delivered prefix parsed in one piece
+            assume(0 <= v <= n)
+            b, cl, avail, frags = (7 if vary == "eof7" else n + 1), n, int(v), ([3] if vary == "eof7" else [])
         else:
             assume(0 <= v <= n)
             b, cl = 3, int(v)
+        if vary.startswith("eof"):
+            s = stubs.SymStream(avail, frags, data=body[:avail])
+            m = MultipartMarkup(boundary)
+            try:
+                body_mixin._body_read(s.read, b, content_length=cl, markup=m)
+            except Exception as e:      # a body shorter than announced may be refused as a whole: then there is no parse result
+                if type(e).__name__ in ("BodyParsingError", "UnexpectedBodyEndError", "RequestError", "BodySizeError"):
+                    cover("ok")
+                    return None
+                raise
+            got = [(x, tuple(r)) for x, r in m.markups], (type(m.error).__name__ if m.error is not None else None)
+            whole = parse(boundary, [body[:avail]] if avail else [])
+            if got != whole:
+                return "buffer %r, Content-Length %r, stream ends after %r bytes: %r, the delivered bytes in one piece %r" % (
+                    b, cl, avail, got, whole)
+            cover("ok")
+            return None
         s = stubs.SymStream(n, frags, data=body)
         m = MultipartMarkup(boundary)
         body_mixin._body_read(s.read, b, content_length=cl, markup=m)
@@ -205,10 +227,12 @@ def queries(tier):
                      "corpus body %r, every prefix length, every pair of cut positions" % tag,
                      timeout=250 if not T else 900, expect_cover=["ok"], family="cut2", config={"body": tag}))
     for tag in (["two", "hyph-bound", "epi-blank"] if not T else [t for t, *_ in G.CORPUS]):
-        for vary in ("buffer", "length", "short", "short7"):
+        for vary in ("buffer", "length", "short", "short7", "eof", "eof7"):
             out.append(Q("body_read/%s/%s" % (tag, vary), make_body_read(tag, vary),
                          "corpus body %r streamed through _body_read: %s" % (tag, "every buffer size 1..len+1 (whole body)"
                          if vary == "buffer" else "every Content-Length 0..len (prefixes), buffer 3" if vary == "length" else
+                         "Content-Length len, the stream ends after v bytes (every v in 0..len), buffer %s" % ("len+1" if vary == "eof" else "7, first read 3 bytes")
+                         if vary.startswith("eof") else
                          "the first read() returns only v bytes, every v in 1..len (short read of the server), buffer %s"
                          % ("len+1" if vary == "short" else "7")),
                          timeout=150 if not T else 600, expect_cover=["ok"], family="body_read", config={"body": tag}))
